@@ -15,7 +15,7 @@ from .common import stale_bindings
 
 DRIVERS = ("pytest_plugin.py::pytest_sessionfinish", "testing/_example.py::Example.run_inline")
 
-from .C04 import configure
+from .C04 import configure, the_detector
 
 
 def check(repo: Repo, rep, tier):
@@ -141,7 +141,7 @@ def ci_table(repo: Repo, rep):
         "reader/writer agreement: every environment variable that is_ci_run() consults is removed from the environment by Example.run_pytest before it starts "
         "the session (else the subprocess driver is disabled by a CI variable while run_inline is not)",
     )
-    ci = repo.func("pytest_plugin.py::is_ci_run")
+    ci = the_detector(repo, "ci", "pytest_plugin.py::is_ci_run")
     rp = repo.func("testing/_example.py::Example.run_pytest")
     consulted: Set[str] = set()
     for x in body_nodes(ci.node):
